@@ -29,6 +29,7 @@ phases = [
 def common(inv):
     return '''//@   ensures[C05.reject.dkg,C18.reject.dkg] err != nil ==> dkgRejectNoop(f)
 //@   ensures[C05.resp] err == nil ==> resp != nil && resp.State == f.currentState
+//@   ensures[C05.resp.reject] resp != nil ==> resp.State == f.currentState
 //@   ensures[C05.inv.table] invDkgTable(f)
 //@   ensures[C05.inv.sig] invDkgSig(f)
 //@   ensures[C05.inv.state] invDkgState(f)
@@ -120,6 +121,7 @@ w('''//@ import spf "github.com/lidofinance/dc4bc/fsm/state_machines/signature_p
 ''')
 sigcommon = '''//@   ensures[C05.reject.sig,C18.reject.sig] err != nil ==> sigRejectNoop(f)
 //@   ensures[C05.resp] err == nil ==> resp != nil && resp.State == f.currentState
+//@   ensures[C05.resp.reject] resp != nil ==> resp.State == f.currentState
 //@   ensures[C05.inv.table] invSigTable(f)
 //@   ensures[C05.inv.state] invSigState(f)
 //@   ensures[C05.inv.wf] invSigWf(f)
